@@ -43,10 +43,15 @@ Proc(task) == IF task = 1 THEN "P" ELSE "C"
 IoConsistent(s, m, d, facts, pipes) ==
     CASE m = "inherit" -> d = facts.dio[s]
       [] m = "null"    -> d.link = "/dev/null" /\ d.acc \in (IF s = 1 THEN {0, 2} ELSE {1, 2})
-      [] m = "pipe"    -> /\ Len(pipes) = 3
-                          /\ pipes[s].link # ""
-                          /\ d.link = pipes[s].link
-                          /\ (IF s = 1 THEN d.acc = 0 /\ pipes[s].acc = 1 ELSE d.acc = 1 /\ pipes[s].acc = 0)
+      [] m = "pipe"    -> IF pipes[s].link # ""
+                          THEN \* the other end is the one the caller got in the returned Child
+                               /\ d.link = pipes[s].link
+                               /\ (IF s = 1 THEN d.acc = 0 /\ pipes[s].acc = 1 ELSE d.acc = 1 /\ pipes[s].acc = 0)
+                          ELSE \* the caller got no Child (spawn returned Err although the child
+                               \* exec'ed, e.g. the sync-pipe read failed): only the direction
+                               \* and "something new" can be checked
+                               /\ d.link \notin {"", "/dev/null", facts.dio[s].link}
+                               /\ d.acc = (IF s = 1 THEN 0 ELSE 1)
       [] m = "raw"     -> d = facts.raw[s]
       [] OTHER         -> FALSE
 IoTags(c, dio, facts, pipes) ==
